@@ -145,7 +145,7 @@ func vmalformed(r *vrand, i int) []byte {
 	case 4:
 		var sb bytes.Buffer
 		for j := 0; j < 1+r.intn(40); j++ {
-			sb.WriteString([]string{"&amp;", "&lt", "&#x41;", "&#65", "&", "&&", "&copy; 2020", "a&b", "&#0;", "&#xD800;", "(c)", "&nbsp;x", "&quot;w&quot; "}[r.intn(13)])
+			sb.WriteString([]string{"&amp;", "&lt", "&#x41;", "&#65", "&", "&&", "&copy; 2020", "a&b", "&#0;", "&#xD800;", "(c)", "&nbsp;x", "&quot;w&quot; ", "RECIPIENT&APOS;S", "x&AMP;y", "&Quot;q&QUOT;", "&Eacute;&eacute;"}[r.intn(17)])
 			if r.chance(1, 3) {
 				sb.WriteByte(' ')
 			}
